@@ -1,1 +1,859 @@
-fn main(){}
+//! C25 — Source buffer preserves text and tracks indentation by brace structure.
+//!
+//! Real object: `wit_bindgen_core::Source`. Space: every sequence of exactly `depth`
+//! operations (shorter ones are prefixes; the whole buffer is judged, so a defect in a prefix
+//! stays visible) over
+//!   P(f) push_str(f) | L(f) push_str_literal(f) | W(f) write!(src, "{}{}", f[..mid], f[mid..])
+//!   | I indent(1) | D deindent(1)
+//! with f from the 17-fragment alphabet below, starting from a fresh buffer with indent(1).
+//! D is only issued when the reference depth is at least 1.
+//!
+//! Reference (written from the statement, line based, knows nothing about fragments):
+//!  S1  output == input up to the whitespace at the start of each line;
+//!  S2  the depth of a line = depth after the previous lines, where a line *opens* a level when
+//!      its last non-blank character is a `{` that was appended as syntax and is not in a line
+//!      comment, and *closes* one when its first non-blank character is a `}` appended as syntax;
+//!      indent(±1) shifts the depth of lines started afterwards; a line is indented by 2 spaces
+//!      per level (plus at most the leading whitespace the appended text itself had there);
+//!  S3  characters appended as literal are opaque (no braces, no comment start);
+//!  S4  follows from S2: after brace-balanced text the depth is the starting depth again.
+//! Where the statement is silent the reference accepts every answer: closing at depth 0, a `{`
+//! after a `//` that is not at the start of the line (comment or not?), blank lines.
+//!
+//! Every failing sequence is classified by *input features* that say "the fragment boundaries
+//! disagree with the line structure": a syntax piece ending in `{` that is followed by more text
+//! on its line (midline-open), a syntax piece starting with `}` that is not first on its line
+//! (midline-close), a multi-line fragment whose first line starts with whitespace and continues
+//! an existing line (midline-trim). Failures without such a feature are keyed by their minimal
+//! sequence.
+use serde_json::{json, Value};
+use std::collections::{BTreeMap, BTreeSet};
+use std::fmt::Write as _;
+use wit_bindgen_core::Source;
+
+const FRAGS: [&str; 17] = [
+    "a", " ", "{", "}", "x {", "} y", "{\n", "}\n", "\n", "// c {", "// c\n", "a\nb", "  a", "a  ",
+    "{ }", "}{", " a\n b",
+];
+const NF: usize = FRAGS.len();
+const NOPS: usize = 3 * NF + 2;
+const BASE: u32 = 1;
+const ALL: u32 = u32::MAX;
+
+const MIDOPEN: u8 = 1;
+const MIDCLOSE: u8 = 2;
+const MIDTRIM: u8 = 4;
+
+fn feat_names(f: u8) -> String {
+    let mut v = Vec::new();
+    if f & MIDOPEN != 0 {
+        v.push("midline-open");
+    }
+    if f & MIDCLOSE != 0 {
+        v.push("midline-close");
+    }
+    if f & MIDTRIM != 0 {
+        v.push("midline-trim");
+    }
+    v.join("+")
+}
+
+fn op_text(op: usize) -> String {
+    if op == 3 * NF {
+        return "indent(1)".into();
+    }
+    if op == 3 * NF + 1 {
+        return "deindent(1)".into();
+    }
+    let f = FRAGS[op % NF];
+    match op / NF {
+        0 => format!("push_str({f:?})"),
+        1 => format!("push_str_literal({f:?})"),
+        _ => {
+            let m = mid(f);
+            format!("write!({:?},{:?})", &f[..m], &f[m..])
+        }
+    }
+}
+
+fn seq_text(seq: &[usize]) -> String {
+    seq.iter().map(|o| op_text(*o)).collect::<Vec<_>>().join("; ")
+}
+
+fn mid(f: &str) -> usize {
+    f.len() / 2
+}
+
+fn shl(b: u32) -> u32 {
+    if b == ALL {
+        ALL
+    } else {
+        b << 1
+    }
+}
+fn shr(b: u32) -> u32 {
+    if b == ALL || b & 1 != 0 {
+        ALL
+    } else {
+        b >> 1
+    }
+}
+
+fn is_ws(c: u8) -> bool {
+    c == b' ' || c == b'\t'
+}
+
+#[derive(Clone, Copy, PartialEq, Default)]
+enum Cm {
+    #[default]
+    No,
+    Definite,
+    Ambiguous,
+}
+
+/// One piece = one line of one pushed string, as the property's "fragment that splits lines".
+#[derive(Clone, Copy)]
+struct Piece {
+    /// input offset of a trailing `{` of the trimmed piece (syntax pushes only)
+    open_at: Option<usize>,
+    /// input offset of a leading `}` of the trimmed piece (syntax pushes only)
+    close_at: Option<usize>,
+    line: usize,
+}
+
+#[derive(Default)]
+struct Reference {
+    inp: Vec<u8>,
+    lit: Vec<bool>,
+    /// allowed depths (bitset) per line, in order; the last entry may be an unterminated line
+    allowed: Vec<u32>,
+    cur: u32,
+    // current line
+    started: bool,
+    l: u32,
+    first_seen: bool,
+    prev_first: bool,
+    prev_syntax_slash: bool,
+    comment: Cm,
+    last_open: Option<Cm>, // Some(cm) if the last non-blank char is a syntax `{`, with the comment state there
+    pieces: Vec<Piece>,
+    /// midline-trim events: (line, input range of the whitespace that starts the fragment)
+    feats_trim: Vec<(usize, usize, usize)>,
+}
+
+impl Reference {
+    fn reset(&mut self) {
+        self.inp.clear();
+        self.lit.clear();
+        self.allowed.clear();
+        self.cur = 1 << BASE;
+        self.pieces.clear();
+        self.feats_trim.clear();
+        self.new_line();
+    }
+    fn new_line(&mut self) {
+        self.started = false;
+        self.l = 0;
+        self.first_seen = false;
+        self.prev_first = false;
+        self.prev_syntax_slash = false;
+        self.comment = Cm::No;
+        self.last_open = None;
+    }
+    fn ch(&mut self, c: u8, lit: bool) {
+        self.inp.push(c);
+        self.lit.push(lit);
+        if c == b'\n' {
+            if self.started {
+                self.allowed.push(self.l);
+            } else {
+                self.allowed.push(self.cur);
+            }
+            match self.last_open {
+                Some(Cm::No) => self.cur = shl(self.cur),
+                Some(Cm::Ambiguous) => {
+                    if self.cur != ALL {
+                        self.cur |= shl(self.cur)
+                    }
+                }
+                _ => {}
+            }
+            self.new_line();
+            return;
+        }
+        if !self.started {
+            self.started = true;
+            self.l = self.cur;
+        }
+        if is_ws(c) {
+            self.prev_syntax_slash = false;
+            self.prev_first = false;
+            return;
+        }
+        let is_slash = c == b'/' && !lit;
+        if !self.first_seen {
+            self.first_seen = true;
+            if c == b'}' && !lit {
+                self.l = shr(self.l);
+                self.cur = shr(self.cur);
+            }
+            self.prev_first = true;
+        } else {
+            if is_slash && self.prev_syntax_slash && self.comment == Cm::No {
+                // `//` at the very start of the line is a line comment for sure; later in the
+                // line the statement does not say (string? comment?): both readings accepted
+                self.comment = if self.prev_first {
+                    Cm::Definite
+                } else {
+                    Cm::Ambiguous
+                };
+            }
+            self.prev_first = false;
+        }
+        self.prev_syntax_slash = is_slash;
+        self.last_open = if c == b'{' && !lit && self.comment != Cm::Definite {
+            Some(self.comment)
+        } else {
+            None
+        };
+    }
+    /// text pushed by one call, `lit` = push_str_literal
+    fn push(&mut self, s: &str, lit: bool) {
+        // pieces as `str::lines` sees them
+        let npieces = s.lines().count();
+        let mut off = 0usize;
+        for (i, piece) in s.split('\n').enumerate() {
+            if i >= npieces {
+                break;
+            }
+            let base = self.inp.len();
+            let line = self.allowed.len();
+            if i == 0 && npieces > 1 && self.started && piece.starts_with([' ', '\t']) {
+                let lead = piece.len() - piece.trim_start().len();
+                self.feats_trim.push((line, base, base + lead));
+            }
+            let comment_before = self.comment;
+            for c in piece.bytes() {
+                self.ch(c, lit);
+            }
+            if !lit {
+                let t = piece.trim();
+                if !t.is_empty() {
+                    let lead = piece.len() - piece.trim_start().len();
+                    // a brace inside a line comment that starts the line is no brace
+                    let open_at = (t.ends_with('{') && self.last_open.is_some())
+                        .then(|| base + lead + t.len() - 1);
+                    let close_at =
+                        (t.starts_with('}') && comment_before != Cm::Definite).then(|| base + lead);
+                    if open_at.is_some() || close_at.is_some() {
+                        self.pieces.push(Piece {
+                            open_at,
+                            close_at,
+                            line,
+                        });
+                    }
+                }
+            }
+            off += piece.len();
+            if off < s.len() {
+                self.ch(b'\n', lit);
+                off += 1;
+            }
+        }
+    }
+    fn mark(&mut self, up: bool) {
+        self.cur = if up { shl(self.cur) } else { shr(self.cur) };
+    }
+    fn can_deindent(&self) -> bool {
+        self.cur != ALL && self.cur & 1 == 0
+    }
+    fn finish(&mut self) {
+        if self.started {
+            self.allowed.push(self.l);
+        }
+    }
+    /// features located on lines <= `upto_line`
+    fn is_midopen(&self, o: usize) -> bool {
+        let mut i = o + 1;
+        while i < self.inp.len() && self.inp[i] != b'\n' {
+            if !is_ws(self.inp[i]) {
+                return true;
+            }
+            i += 1;
+        }
+        false
+    }
+    fn is_midclose(&self, o: usize) -> bool {
+        let mut i = o;
+        while i > 0 && self.inp[i - 1] != b'\n' {
+            i -= 1;
+            if !is_ws(self.inp[i]) {
+                return true;
+            }
+        }
+        false
+    }
+    /// S1: which feature removed the whitespace at input offset `p`?
+    fn explain_text(&self, p: usize) -> u8 {
+        for (_, lo, hi) in &self.feats_trim {
+            if *lo <= p && p < *hi {
+                return MIDTRIM;
+            }
+        }
+        for pc in &self.pieces {
+            if let Some(o) = pc.close_at {
+                if o >= 2 && o - 2 <= p && p < o && self.is_midclose(o) {
+                    return MIDCLOSE;
+                }
+            }
+        }
+        0
+    }
+    /// S2 / panic: the first place (up to `upto_line`) where fragment boundaries and line
+    /// structure disagree about a brace
+    fn explain_depth(&self, upto_line: usize, lowered: bool) -> u8 {
+        if lowered {
+            // an underflowing deindent needs a counter that is too low: only a `}` that was
+            // counted although it does not start its line can do that
+            for pc in &self.pieces {
+                if let Some(o) = pc.close_at {
+                    if self.is_midclose(o) {
+                        return MIDCLOSE;
+                    }
+                }
+            }
+        }
+        for pc in &self.pieces {
+            if pc.line > upto_line {
+                break;
+            }
+            if let Some(o) = pc.close_at {
+                if self.is_midclose(o) {
+                    return MIDCLOSE;
+                }
+            }
+            if let Some(o) = pc.open_at {
+                if self.is_midopen(o) {
+                    return MIDOPEN;
+                }
+            }
+        }
+        0
+    }
+    fn features(&self, upto_line: usize) -> u8 {
+        let mut f = 0u8;
+        for (l, _, _) in &self.feats_trim {
+            if *l <= upto_line {
+                f |= MIDTRIM;
+            }
+        }
+        for p in &self.pieces {
+            if p.line > upto_line {
+                continue;
+            }
+            if let Some(o) = p.open_at {
+                // more non-blank text after the brace on the same line?
+                let mut i = o + 1;
+                while i < self.inp.len() && self.inp[i] != b'\n' {
+                    if !is_ws(self.inp[i]) {
+                        f |= MIDOPEN;
+                        break;
+                    }
+                    i += 1;
+                }
+            }
+            if let Some(o) = p.close_at {
+                let mut i = o;
+                while i > 0 && self.inp[i - 1] != b'\n' {
+                    i -= 1;
+                    if !is_ws(self.inp[i]) {
+                        f |= MIDCLOSE;
+                        break;
+                    }
+                }
+            }
+        }
+        f
+    }
+}
+
+#[derive(Clone, Copy, PartialEq, Eq, PartialOrd, Ord, Debug)]
+enum Clause {
+    Panic,
+    S1,
+    S2,
+}
+
+struct Fail {
+    clause: Clause,
+    line: usize,
+    /// S1: input offset of the first character that is missing / different
+    pos: usize,
+    msg: String,
+}
+
+enum Res {
+    /// deindent below zero per reference: not a sequence of the space
+    Invalid,
+    Done {
+        fail: Option<Fail>,
+        features_all: u8,
+        features_to_fail: u8,
+        indented: bool,
+        profile: u64,
+    },
+}
+
+fn run_real(seq: &[usize]) -> Result<String, String> {
+    vcommon::catch(|| {
+        let mut src = Source::default();
+        src.indent(BASE as usize);
+        for &op in seq {
+            if op == 3 * NF {
+                src.indent(1);
+            } else if op == 3 * NF + 1 {
+                src.deindent(1);
+            } else {
+                let f = FRAGS[op % NF];
+                match op / NF {
+                    0 => src.push_str(f),
+                    1 => src.push_str_literal(f),
+                    _ => {
+                        let m = mid(f);
+                        write!(src, "{}{}", &f[..m], &f[m..]).unwrap();
+                    }
+                }
+            }
+        }
+        String::from(src)
+    })
+}
+
+fn lead_ws(b: &[u8]) -> usize {
+    b.iter().take_while(|c| is_ws(**c)).count()
+}
+
+fn exec(seq: &[usize], r: &mut Reference) -> Res {
+    r.reset();
+    for &op in seq {
+        if op == 3 * NF {
+            r.mark(true);
+        } else if op == 3 * NF + 1 {
+            if !r.can_deindent() {
+                return Res::Invalid;
+            }
+            r.mark(false);
+        } else {
+            let f = FRAGS[op % NF];
+            match op / NF {
+                0 => r.push(f, false),
+                1 => r.push(f, true),
+                _ => {
+                    let m = mid(f);
+                    if m > 0 {
+                        r.push(&f[..m], false);
+                    }
+                    r.push(&f[m..], false);
+                }
+            }
+        }
+    }
+    r.finish();
+    let features_all = r.features(usize::MAX);
+    let out = match run_real(seq) {
+        Ok(s) => s,
+        Err(p) => {
+            return Res::Done {
+                fail: Some(Fail {
+                    clause: Clause::Panic,
+                    line: usize::MAX,
+                    pos: 0,
+                    msg: format!("panicked: {p}"),
+                }),
+                features_all,
+                features_to_fail: r.explain_depth(usize::MAX, true),
+                indented: false,
+                profile: 0,
+            }
+        }
+    };
+    let mut fail: Option<Fail> = None;
+    let mut indented = false;
+    let mut profile: u64 = 0xcbf29ce484222325;
+    // S1 + S2, line by line
+    let mut il = r.inp.split(|c| *c == b'\n');
+    let mut ol = out.as_bytes().split(|c| *c == b'\n');
+    let mut k = 0usize;
+    let mut line_start = 0usize;
+    loop {
+        let (a, b) = (il.next(), ol.next());
+        match (a, b) {
+            (None, None) => break,
+            (Some(a), Some(b)) => {
+                let (ia, ib) = (lead_ws(a), lead_ws(b));
+                if a[ia..] != b[ib..] {
+                    let j = a[ia..]
+                        .iter()
+                        .zip(b[ib..].iter())
+                        .take_while(|(x, y)| x == y)
+                        .count();
+                    fail = Some(Fail {
+                        clause: Clause::S1,
+                        line: k,
+                        pos: line_start + ia + j,
+                        msg: format!(
+                            "line {k}: appended text {:?}, buffer has {:?} (differs beyond leading whitespace)",
+                            String::from_utf8_lossy(a),
+                            String::from_utf8_lossy(b)
+                        ),
+                    });
+                    break;
+                }
+                profile = (profile ^ ib as u64).wrapping_mul(0x100000001b3);
+                if ib != ia {
+                    indented = true;
+                }
+                if ib < b.len() && k < r.allowed.len() {
+                    let al = r.allowed[k];
+                    if al != ALL {
+                        let ok = b[..ib].iter().all(|c| *c == b' ')
+                            && (0..32).any(|d| al & (1 << d) != 0 && 2 * d <= ib && ib <= 2 * d + ia);
+                        if !ok {
+                            let depths: Vec<usize> = (0..32).filter(|d| al & (1 << d) != 0).collect();
+                            fail = Some(Fail {
+                                clause: Clause::S2,
+                                line: k,
+                                pos: 0,
+                                msg: format!(
+                                    "line {k} {:?} has {ib} leading blanks; brace nesting puts it at depth {depths:?} (2 per level, the appended text itself had {ia} leading blanks)",
+                                    String::from_utf8_lossy(b)
+                                ),
+                            });
+                            break;
+                        }
+                    }
+                }
+            }
+            (a, b) => {
+                fail = Some(Fail {
+                    clause: Clause::S1,
+                    line: k,
+                    pos: usize::MAX,
+                    msg: format!(
+                        "line count differs at line {k}: appended {:?}, buffer {:?}",
+                        a.map(String::from_utf8_lossy),
+                        b.map(String::from_utf8_lossy)
+                    ),
+                });
+                break;
+            }
+        }
+        if let Some(a) = a {
+            line_start += a.len() + 1;
+        }
+        k += 1;
+    }
+    let features_to_fail = match &fail {
+        Some(f) if f.clause == Clause::S1 => r.explain_text(f.pos),
+        Some(f) => r.explain_depth(f.line, false),
+        None => 0,
+    };
+    Res::Done {
+        fail,
+        features_all,
+        features_to_fail,
+        indented,
+        profile,
+    }
+}
+
+/// (clause, feature set up to the first failing line) of a failing sequence
+fn class_of(seq: &[usize], r: &mut Reference) -> Option<(Clause, u8)> {
+    match exec(seq, r) {
+        Res::Done {
+            fail: Some(f),
+            features_to_fail,
+            ..
+        } => Some((f.clause, features_to_fail)),
+        _ => None,
+    }
+}
+
+fn fails_with(seq: &[usize], class: (Clause, u8), r: &mut Reference) -> bool {
+    class_of(seq, r) == Some(class)
+}
+
+/// Greedy: drop operations, then replace fragments by earlier (simpler) ones, while the
+/// sequence still fails in the same class (clause, feature set).
+fn minimise(seq: &[usize], clause: (Clause, u8), r: &mut Reference) -> Vec<usize> {
+    let mut cur = seq.to_vec();
+    loop {
+        let mut changed = false;
+        let mut i = 0;
+        while i < cur.len() {
+            let mut t = cur.clone();
+            t.remove(i);
+            if !t.is_empty() && fails_with(&t, clause, r) {
+                cur = t;
+                changed = true;
+            } else {
+                i += 1;
+            }
+        }
+        for i in 0..cur.len() {
+            if cur[i] >= 3 * NF {
+                continue;
+            }
+            let kind = cur[i] / NF;
+            for f in 0..cur[i] % NF {
+                let mut t = cur.clone();
+                t[i] = kind * NF + f;
+                if fails_with(&t, clause, r) {
+                    cur = t;
+                    changed = true;
+                    break;
+                }
+            }
+        }
+        if !changed {
+            return cur;
+        }
+    }
+}
+
+fn describe(seq: &[usize], r: &mut Reference) -> Value {
+    let res = exec(seq, r);
+    let out = run_real(seq);
+    let depths: Vec<Value> = r
+        .allowed
+        .iter()
+        .map(|al| {
+            if *al == ALL {
+                json!("any")
+            } else {
+                json!((0..32).filter(|d| al & (1 << d) != 0).collect::<Vec<usize>>())
+            }
+        })
+        .collect();
+    let (fail, feats) = match res {
+        Res::Invalid => (Some("invalid sequence (deindent below 0)".to_string()), 0),
+        Res::Done {
+            fail, features_all, ..
+        } => (fail.map(|f| format!("{:?}: {}", f.clause, f.msg)), features_all),
+    };
+    json!({
+        "ops": seq_text(seq),
+        "appended": String::from_utf8_lossy(&r.inp),
+        "buffer": out.unwrap_or_else(|p| format!("<panic: {p}>")),
+        "reference_depth_per_line": depths,
+        "features": feat_names(feats),
+        "violation": fail,
+    })
+}
+
+fn main() {
+    let mut run = vcommon::Run::from_args("C25", "exploration");
+    vcommon::install_quiet_panic_hook();
+    let mut r = Reference::default();
+
+    if let Some(d) = run.replay_detail() {
+        let seq: Vec<usize> = d["ops"]
+            .as_array()
+            .map(|a| a.iter().map(|v| v.as_u64().unwrap() as usize).collect())
+            .unwrap_or_default();
+        let v = describe(&seq, &mut r);
+        println!("{}", serde_json::to_string_pretty(&v).unwrap());
+        if v["violation"].is_null() {
+            println!("no violation");
+            std::process::exit(0);
+        }
+        println!("still fails");
+        std::process::exit(1);
+    }
+
+    let depth: usize = run.pick(4, 5);
+    let units = NOPS * NOPS;
+    let res = vcommon::par_map(units, vcommon::ncpu(), |u| {
+        let mut r = Reference::default();
+        let mut seq = vec![0usize; depth];
+        seq[0] = u / NOPS;
+        seq[1] = u % NOPS;
+        let rest = depth - 2;
+        let total = (NOPS as u64).pow(rest as u32);
+        let (mut valid, mut invalid, mut aligned, mut featured) = (0u64, 0u64, 0u64, 0u64);
+        let (mut aligned_fail, mut featured_fail, mut indented) = (0u64, 0u64, 0u64);
+        let mut profiles: BTreeSet<u64> = BTreeSet::new();
+        // key -> (len, seq)
+        let mut found: BTreeMap<String, Vec<usize>> = BTreeMap::new();
+        let mut minimised = 0usize;
+        let mut sample = Value::Null;
+        for k in 0..total {
+            let mut x = k;
+            for j in (2..depth).rev() {
+                seq[j] = (x % NOPS as u64) as usize;
+                x /= NOPS as u64;
+            }
+            match exec(&seq, &mut r) {
+                Res::Invalid => invalid += 1,
+                Res::Done {
+                    fail,
+                    features_all,
+                    features_to_fail,
+                    indented: ind,
+                    profile,
+                } => {
+                    valid += 1;
+                    if ind {
+                        indented += 1;
+                    }
+                    if profiles.len() < 100_000 {
+                        profiles.insert(profile);
+                    }
+                    if features_all == 0 {
+                        aligned += 1;
+                    } else {
+                        featured += 1;
+                    }
+                    if let Some(f) = fail {
+                        if features_all == 0 {
+                            aligned_fail += 1;
+                        } else {
+                            featured_fail += 1;
+                        }
+                        let key = if features_to_fail != 0 {
+                            format!("{:?}/{}", f.clause, feat_names(features_to_fail))
+                        } else {
+                            String::new()
+                        };
+                        if key.is_empty() {
+                            // unexplained by a feature: minimal sequence is the key
+                            if minimised < 300 {
+                                minimised += 1;
+                                let m = minimise(&seq, (f.clause, 0), &mut r);
+                                let key = format!("{:?}/{}", f.clause, seq_text(&m));
+                                found.entry(key).or_insert(m);
+                            }
+                        } else {
+                            let e = found.entry(key).or_insert_with(|| seq.clone());
+                            if seq.len() < e.len() {
+                                *e = seq.clone();
+                            }
+                        }
+                    } else if k == total / 2 {
+                        sample = json!(seq.clone());
+                    }
+                }
+            }
+        }
+        json!({"valid": valid, "invalid": invalid, "aligned": aligned, "featured": featured,
+               "aligned_fail": aligned_fail, "featured_fail": featured_fail, "indented": indented,
+               "profiles": profiles.into_iter().collect::<Vec<_>>(),
+               "found": found, "sample": sample})
+    });
+
+    let (mut valid, mut invalid, mut aligned, mut featured) = (0u64, 0u64, 0u64, 0u64);
+    let (mut aligned_fail, mut featured_fail, mut indented) = (0u64, 0u64, 0u64);
+    let mut profiles: BTreeSet<u64> = BTreeSet::new();
+    let mut found: BTreeMap<String, Vec<usize>> = BTreeMap::new();
+    let mut samples: Vec<Value> = Vec::new();
+    for (i, x) in res.iter().enumerate() {
+        valid += x["valid"].as_u64().unwrap();
+        invalid += x["invalid"].as_u64().unwrap();
+        aligned += x["aligned"].as_u64().unwrap();
+        featured += x["featured"].as_u64().unwrap();
+        aligned_fail += x["aligned_fail"].as_u64().unwrap();
+        featured_fail += x["featured_fail"].as_u64().unwrap();
+        indented += x["indented"].as_u64().unwrap();
+        for p in x["profiles"].as_array().unwrap() {
+            profiles.insert(p.as_u64().unwrap());
+        }
+        for (k, v) in x["found"].as_object().unwrap() {
+            let s: Vec<usize> = v
+                .as_array()
+                .unwrap()
+                .iter()
+                .map(|y| y.as_u64().unwrap() as usize)
+                .collect();
+            match found.get(k) {
+                Some(e) if (e.len(), e.clone()) <= (s.len(), s.clone()) => {}
+                _ => {
+                    found.insert(k.clone(), s);
+                }
+            }
+        }
+        if (i + 1).is_power_of_two() && !x["sample"].is_null() && samples.len() < 10 {
+            let s: Vec<usize> = x["sample"]
+                .as_array()
+                .unwrap()
+                .iter()
+                .map(|y| y.as_u64().unwrap() as usize)
+                .collect();
+            samples.push(describe(&s, &mut r));
+        }
+    }
+    let mut reported = Vec::new();
+    // failures that no mid-line feature explains are keyed by their minimal sequence; only
+    // the 10 shortest are reported (one defect shows up in many minimal sequences)
+    let mut unexplained: Vec<(usize, String)> = found
+        .iter()
+        .filter(|(k, _)| k.contains("push_str") || k.contains("write!") || k.contains("indent("))
+        .map(|(k, v)| (v.len(), k.clone()))
+        .collect();
+    unexplained.sort();
+    let unexplained_total = unexplained.len();
+    for (_, k) in unexplained.iter().skip(10) {
+        found.remove(k);
+    }
+    for (key, s) in &found {
+        // the stored example is representative; print a minimal one of the same class
+        let Some(class) = class_of(s, &mut r) else {
+            vcommon::machinery(&format!("C25: stored failure {key} does not reproduce"));
+        };
+        let m = minimise(s, class, &mut r);
+        let d = describe(&m, &mut r);
+        let what = format!(
+            "{key}: minimal example {} -> buffer {:?}; {}",
+            seq_text(&m),
+            d["buffer"].as_str().unwrap_or(""),
+            d["violation"].as_str().unwrap_or("")
+        );
+        reported.push(json!({"key": key, "example": d}));
+        run.violation(key, &what, json!({"ops": m, "text": seq_text(&m), "first_found": seq_text(s)}));
+    }
+    println!(
+        "C25 failure classes ({}): {}",
+        found.len(),
+        found.keys().cloned().collect::<Vec<_>>().join(" | ")
+    );
+    println!(
+        "C25 line-aligned sequences: {aligned}, failing: {aligned_fail}; with mid-line features: {featured}, failing: {featured_fail}; distinct unexplained minimal sequences seen: {unexplained_total}"
+    );
+    run.finish(
+        json!({
+            "alphabet": {"fragments": FRAGS, "ops": ["push_str", "push_str_literal", "write!(two halves)", "indent(1)", "deindent(1)"], "ops_per_step": NOPS, "base_indent": BASE},
+            "bound": format!("all sequences of length {depth} ({NOPS}^{depth} = {}), deindent only at reference depth >= 1", (NOPS as u64).pow(depth as u32)),
+            "oracle": "S1 text equal up to leading whitespace per line; S2 line-based brace nesting reference (2 blanks per level), literal characters opaque, balanced text restores the depth",
+            "evaluations": valid,
+            "skipped_invalid_deindent": invalid,
+            "line_aligned_sequences": aligned,
+            "line_aligned_failures": aligned_fail,
+            "sequences_with_midline_features": featured,
+            "midline_feature_failures": featured_fail,
+            "distinct_nontrivial": indented,
+            "rule": "sequences (all distinct) whose buffer differs from the appended text, i.e. at least one line's leading whitespace was changed by the buffer",
+            "distinct_outcomes": profiles.len(),
+            "distinct_outcomes_rule": "distinct per-line indentation profiles of the buffer (capped at 100000 per worker)",
+            "failure_classes": reported,
+            "unexplained_minimal_sequences_seen": unexplained_total,
+            "exhaustive": true,
+            "samples": samples,
+        }),
+        vec![
+            "indentation unit is 2 blanks per level (as in the crate's own unit tests)".into(),
+            "a line may keep up to the leading whitespace the appended text itself had at that place".into(),
+            "closing at depth 0, `{` after a mid-line `//`, and blank lines are left unconstrained".into(),
+            "no CR, no tab in the alphabet; append_src is not exercised".into(),
+            "failures are keyed by clause + input feature set (midline-open / midline-close / midline-trim) up to the first failing line; failures without a feature by their minimal sequence".into(),
+        ],
+    );
+}
